@@ -40,6 +40,8 @@ pub(crate) struct ZmtpSmartConnection {
   /// batch via a single relaxed load instead of iterating every egress channel.
   work_signal_gen: Arc<AtomicUsize>,
   sndtimeo: Option<Duration>,
+  /// The token this connection's handler was registered with (see `ShutdownConnectionHandler`).
+  conn_token: u64,
 }
 
 impl std::fmt::Debug for ZmtpSmartConnection {
@@ -59,6 +61,7 @@ impl ZmtpSmartConnection {
     worker_asleep: Arc<AtomicU8>,
     work_signal_gen: Arc<AtomicUsize>,
     sndtimeo: Option<Duration>,
+    conn_token: u64,
   ) -> Self {
     Self {
       fd,
@@ -67,6 +70,7 @@ impl ZmtpSmartConnection {
       worker_asleep,
       work_signal_gen,
       sndtimeo,
+      conn_token,
     }
   }
 
@@ -179,6 +183,7 @@ impl ISocketConnection for ZmtpSmartConnection {
     let req = crate::io_uring_backend::ops::UringOpRequest::ShutdownConnectionHandler {
       user_data: NEXT_CLOSE_USER_DATA.fetch_add(1, Ordering::Relaxed),
       fd: self.fd,
+      conn_token: self.conn_token,
       reply_tx,
     };
     let worker_op_tx = crate::uring::global_state::get_global_uring_worker_op_tx()?;
@@ -221,9 +226,16 @@ pub(crate) struct ZmtpUringHandler {
   is_throttled: AtomicBool,
   multishot_reader: Option<MultishotReader>,
   is_closing: bool,
+  /// A `RequestClose` has been handed to the worker: there must be exactly one per descriptor (a
+  /// second one would close whatever has been given the same number since).
+  close_requested: bool,
   /// Non-blocking delayed close (replaces `thread::sleep`).
   /// Armed when `NetAction::ScheduleClose(Some(delay))` fires; `prepare_sqes` polls it.
   close_deadline: Option<Instant>,
+  /// The handshake has to be over by then (HANDSHAKE_IVL, as in the Tokio session); `prepare_sqes` polls it.
+  handshake_deadline: Option<Instant>,
+  /// Next time the engine's heartbeat logic is to be run; `prepare_sqes` polls it.
+  next_heartbeat_tick: Option<Instant>,
   use_send_zerocopy: bool,
   use_recv_multishot: bool,
   send_buffer_slot_size: usize,
@@ -247,6 +259,9 @@ impl ZmtpUringHandler {
     worker_asleep: Arc<AtomicU8>,
   ) -> Self {
     let sndbatch_count = engine.config().sndbatch_count;
+    let handshake_deadline =
+      Some(Instant::now() + engine.config().handshake_timeout.unwrap_or(Duration::from_secs(15)));
+    let next_heartbeat_tick = engine.config().heartbeat_ivl.map(|_| Instant::now());
     Self {
       fd,
       worker_io_config,
@@ -257,7 +272,10 @@ impl ZmtpUringHandler {
       is_throttled: AtomicBool::new(false),
       multishot_reader: None,
       is_closing: false,
+      close_requested: false,
       close_deadline: None,
+      handshake_deadline,
+      next_heartbeat_tick,
       use_send_zerocopy,
       use_recv_multishot,
       send_buffer_slot_size,
@@ -265,6 +283,14 @@ impl ZmtpUringHandler {
       write_in_flight: 0,
       event_fd,
       worker_asleep,
+    }
+  }
+
+  /// Hands the one `RequestClose` of this descriptor to the worker (a no-op after the first call).
+  fn request_close(&mut self, ops: &mut HandlerIoOps) {
+    if !self.close_requested {
+      self.close_requested = true;
+      ops.sqe_blueprints.push(HandlerSqeBlueprint::RequestClose);
     }
   }
 
@@ -322,6 +348,7 @@ impl ZmtpUringHandler {
           peer_identity,
           peer_socket_type,
         } => {
+          self.handshake_deadline = None;
           let cmd = Command::UringConnectionEstablished {
             endpoint_uri: self.worker_io_config.endpoint_uri.clone(),
             target_endpoint_uri: self.worker_io_config.target_endpoint_uri.clone(),
@@ -492,16 +519,21 @@ impl UringConnectionHandler for ZmtpUringHandler {
 
     if bytes.is_empty() {
       info!(fd = self.fd, "ZmtpUringHandler: EOF from peer");
+      let was_closing = self.is_closing;
       self.is_closing = true;
-      let _ = self
-        .worker_io_config
-        .socket_mailbox
-        .clone() // short-lived clone: see UringConnectionEstablished
-        .try_send(Command::UringFdError {
-          endpoint_uri: self.worker_io_config.endpoint_uri.clone(),
-          error: ZmqError::ConnectionClosed,
-        });
-      return HandlerIoOps::new().add_blueprint(HandlerSqeBlueprint::RequestClose);
+      if !was_closing {
+        let _ = self
+          .worker_io_config
+          .socket_mailbox
+          .clone() // short-lived clone: see UringConnectionEstablished
+          .try_send(Command::UringFdError {
+            endpoint_uri: self.worker_io_config.endpoint_uri.clone(),
+            error: ZmqError::ConnectionClosed,
+          });
+      }
+      let mut ops = HandlerIoOps::new();
+      self.request_close(&mut ops);
+      return ops;
     }
 
     if self.is_closing {
@@ -533,7 +565,7 @@ impl UringConnectionHandler for ZmtpUringHandler {
       );
       self.is_closing = true;
       let mut ops = HandlerIoOps::new();
-      ops.sqe_blueprints.push(HandlerSqeBlueprint::RequestClose);
+      self.request_close(&mut ops);
       return ops;
     }
     HandlerIoOps::new()
@@ -626,7 +658,42 @@ impl UringConnectionHandler for ZmtpUringHandler {
     if let Some(deadline) = self.close_deadline {
       if Instant::now() >= deadline {
         self.close_deadline = None;
-        ops.sqe_blueprints.push(HandlerSqeBlueprint::RequestClose);
+        self.request_close(&mut ops);
+      }
+    }
+
+    // (d) Timers, polled like the delayed close (the worker comes by at least every
+    // KERNEL_POLL_MAX_DURATION, also when nothing happens): the handshake deadline and the
+    // engine's heartbeat logic, as the Tokio session runs them.
+    if !self.is_closing {
+      let now = Instant::now();
+      if self.engine.phase == crate::protocol::zmtp::engine::ZmtpPhase::Data {
+        self.handshake_deadline = None;
+        if let Some(tick_at) = self.next_heartbeat_tick {
+          if now >= tick_at {
+            let period = self
+              .engine
+              .config()
+              .heartbeat_ivl
+              .map(|ivl| (ivl / 4).clamp(Duration::from_millis(5), Duration::from_millis(250)))
+              .unwrap_or(Duration::from_millis(250));
+            self.next_heartbeat_tick = Some(now + period);
+            let tick_out = self.engine.on_tick(now);
+            let tick_ops = self.apply_engine_output(tick_out);
+            ops.sqe_blueprints.extend(tick_ops.sqe_blueprints);
+            ops.initiate_close_due_to_error |= tick_ops.initiate_close_due_to_error;
+          }
+        }
+      } else if let Some(deadline) = self.handshake_deadline {
+        if now >= deadline {
+          self.handshake_deadline = None;
+          warn!(fd = self.fd, "ZmtpUringHandler: overall ZMTP handshake timed out");
+          let timeout_ops = self.apply_engine_output(
+            EngineOutput::new().with_app(AppAction::PeerError(ZmqError::Timeout)),
+          );
+          ops.sqe_blueprints.extend(timeout_ops.sqe_blueprints);
+          ops.initiate_close_due_to_error |= timeout_ops.initiate_close_due_to_error;
+        }
       }
     }
 
@@ -644,7 +711,8 @@ impl UringConnectionHandler for ZmtpUringHandler {
 
   fn close_initiated(&mut self, _interface: &UringWorkerInterface<'_>) -> HandlerIoOps {
     info!(fd = self.fd, "ZmtpUringHandler: close_initiated");
-    if self.is_closing {
+    if self.close_requested || (self.is_closing && self.close_deadline.is_some()) {
+      // already on its way, or a delayed close is armed and will do it
       return HandlerIoOps::new();
     }
     self.is_closing = true;
@@ -655,7 +723,7 @@ impl UringConnectionHandler for ZmtpUringHandler {
         ops.sqe_blueprints.push(cancel_bp);
       }
     }
-    ops.sqe_blueprints.push(HandlerSqeBlueprint::RequestClose);
+    self.request_close(&mut ops);
     ops
   }
 
